@@ -1,5 +1,5 @@
 (* Props/C03.v -- property theorems for C03 only. *)
-From LV Require Import Base FS FSFacts LayerEnv LayerEnvFacts LayerShared LayerEnvFS LayerEnvFSFacts.
+From LV Require Import Base FS FSFacts LayerEnv LayerEnvFacts LayerShared LayerSharedGone LayerEnvFS LayerEnvFSFacts Determinism LayerEnvFSExact.
 From LVGen Require Import GenLayerEnv.
 
 Theorem c03_tables :
@@ -53,12 +53,38 @@ Proof.
 Qed.
 Print Assumptions c03_read_rules.
 
-(* FULL (not yet a theorem; decided on implementation snapshots by the verified frame oracle and
-   the layout_exact judgement of Checks/C03Hold.v, and by the correspondence):
-     c03_layout_exact : after a successful write_to_layer_dir the paths below the three env roots
-                        are exactly spec_layout/spec_dirs of the environment;
-     c03_overwrite    : write new (write old fs) and write new fs agree on the env roots;
-     c03_frame        : nothing outside the three roots changes. *)
+(* FS level, one env directory (env, env.build or env.launch of a layer): inside a real, searchable,
+   writable layer directory of a parent-closed file system, whatever the env directory held before
+   (absent, or any tree remove_dir_all can traverse), a write succeeds and afterwards the paths at
+   and below it are EXACTLY the directory plus one 0644 file per delta entry -- nothing when the
+   delta is empty -- and nothing outside it changed *)
+Theorem c03_env_dir_exact :
+  forall d dir nm s,
+    simple_dir s dir -> parent_closed s -> valid_name nm = true -> files_ok beh_order writer_suffix d ->
+    (pget (dir ++ [nm]) s = None \/ exists m, pget (dir ++ [nm]) s = Some (Dir m) /\ subtree_rwx (dir ++ [nm]) s = true) ->
+    exists s', write_env_dir beh_order writer_suffix d (dir ++ [nm]) s = (s', Ok tt) /\
+               (forall q, is_prefix (dir ++ [nm]) q = false -> pget q s' = pget q s) /\
+               (forall q, is_prefix (dir ++ [nm]) q = true -> pget q s' = env_dir_spec beh_order writer_suffix d (dir ++ [nm]) q).
+Proof. exact (write_env_dir_exact beh_order writer_suffix). Qed.
+Print Assumptions c03_env_dir_exact.
+
+(* overwrite: the result below the env directory depends on the delta alone *)
+Theorem c03_env_dir_overwrites :
+  forall d dir nm sa sb,
+    simple_dir sa dir -> parent_closed sa -> simple_dir sb dir -> parent_closed sb -> valid_name nm = true ->
+    files_ok beh_order writer_suffix d ->
+    (pget (dir ++ [nm]) sa = None \/ exists m, pget (dir ++ [nm]) sa = Some (Dir m) /\ subtree_rwx (dir ++ [nm]) sa = true) ->
+    (pget (dir ++ [nm]) sb = None \/ exists m, pget (dir ++ [nm]) sb = Some (Dir m) /\ subtree_rwx (dir ++ [nm]) sb = true) ->
+    exists sa' sb', write_env_dir beh_order writer_suffix d (dir ++ [nm]) sa = (sa', Ok tt) /\
+                    write_env_dir beh_order writer_suffix d (dir ++ [nm]) sb = (sb', Ok tt) /\
+                    forall q, is_prefix (dir ++ [nm]) q = true -> pget q sa' = pget q sb'.
+Proof. exact (write_env_dir_overwrites beh_order writer_suffix). Qed.
+Print Assumptions c03_env_dir_overwrites.
+
+(* PARTIAL: the composition over the three directories and the per-process directories below
+   env.launch (which needs create_dir_all's recursion when env.launch itself is absent) is decided on
+   implementation snapshots by the verified judgement layout_exact / frame_chk of Checks/C03Hold.v
+   and by the correspondence, not yet proved as one theorem about write_to_layer_dir. *)
 
 Example c03_nonvacuous :
   let d := dinsert Append [65; 46; 66] [1] (dinsert Override [255] [0; 10] (dinsert Delim [65; 46; 66] [58] delta_empty)) in
